@@ -16,6 +16,11 @@ open Placement Placement.Gens Placement.Hier
 variable {R : Type}
 set_option linter.unusedSectionVars false
 
+/-- a 2xx answer -/
+def okR (r : Resp) : Prop := r.ok = true
+
+instance (r : Resp) : Decidable (okR r) := by unfold okR; exact inferInstance
+
 /-- consumer rows keep their uuid; new rows carry a uuid of `N` -/
 def ConsU (N : Nat → Prop) (a b : GCore) : Prop :=
   ∀ c' ∈ b.consumers, (a.nextCons ≤ c'.id ∧ N c'.uuid) ∨ ∃ c ∈ a.consumers, c.id = c'.id ∧ c.uuid = c'.uuid
